@@ -118,16 +118,27 @@ type c12CallRes struct {
 	args [][]byte
 }
 
+var c12SharedCallParser = parsers.NewCallArgsParser()
+var c12HeldArgs, c12HeldCopy [][]byte
+var c12HeldLate string
+
 func c12ParseCall(data string) (out c12Out, res c12CallRes) {
 	defer func() {
 		if r := recover(); r != nil {
 			out = c12Out{class: "panic", pval: r}
 		}
 	}()
-	f, args, err := parsers.NewCallArgsParser().ParseData(data)
+	// ONE long-lived parser object; the result of the previous call is kept by reference and must still read the same after this call
+	// (a parser that hands out slices of a buffer it reuses fails here)
+	f, args, err := c12SharedCallParser.ParseData(data)
+	if c12HeldArgs != nil && !c12SameArgs(c12HeldArgs, c12HeldCopy) && c12HeldLate == "" {
+		c12HeldLate = fmt.Sprintf("the arguments returned for an earlier ParseData read %s then and %s after ParseData(%q) on the same parser object", c12BytesList(c12HeldCopy), c12BytesList(c12HeldArgs), data)
+	}
+	c12HeldArgs, c12HeldCopy = nil, nil
 	if err != nil {
 		return c12Out{class: "err", code: c12ErrCode(err)}, res
 	}
+	c12HeldArgs, c12HeldCopy = args, cloneArgs(args)
 	res = c12CallRes{f, args}
 	return c12Out{class: "ok", term: c12Pair(c12Bytes([]byte(f)), c12BytesList(args))}, res
 }
@@ -216,6 +227,10 @@ func c12String(c *ctx, data string, class string, toCoq bool) {
 	c.note("str/"+data, true)
 	c.count(class)
 	rp := map[string]string{"parser": "string parsers", "data_hex": hex.EncodeToString([]byte(data))}
+	if c12HeldLate != "" {
+		c.fail("monitor", "parser-result-changed-later", "callArgs parser: "+c12HeldLate, rp)
+		c12HeldLate = ""
+	}
 	for i, o := range []c12Out{call, dep, su} {
 		name := []string{"callArgs", "deployArgs", "storageUpdates"}[i]
 		if o.class == "panic" {
